@@ -343,6 +343,7 @@ def descr_text(raw, code):
     out = []
     if raw["terms"]:
         out.append("TERM " + " ".join("%s=%d" % (tname(t["n"]), code(t["c"])) for t in raw["terms"]) + ";")
+    prev_lhs = None
     for r in raw["rules"]:
         rhs = " ".join(tname(x) for x in r["r"])
         if r["an"] != 0:
@@ -351,7 +352,12 @@ def descr_text(raw, code):
             tr = ""
         else:
             tr = "# -" if r["t"][0] == 0 else "# %d" % (r["t"][0] - 1)
-        out.append("%s : %s %s ;" % (tname(r["l"]), rhs, tr))
+        alt = ("%s %s" % (rhs, tr)).strip()
+        if prev_lhs == r["l"]:
+            out[-1] = out[-1][:-2] + "\n  | " + alt + " ;"      # consecutive rules of one nonterminal: alternatives (a wide rule is a deep yacc stack)
+        else:
+            out.append("%s : %s ;" % (tname(r["l"]), alt))
+        prev_lhs = r["l"]
     return "\n".join(out) + "\n"
 
 
